@@ -653,7 +653,7 @@ pub fn check_mint(c: &MintCase, l: &mut Local) -> Result<(), String> {
     let offered = data.clone();
     let owner = if c.token2022 { TOKEN22 } else { TOKEN };
     w.bank.set(key, Acct { lamports: 1_000_000_000, data, owner, executable: false });
-    let m = MintInfo { key, program: owner, transfer_fee: None };
+    let m = MintInfo { key, program: owner, transfer_fee: None, hook: None };
     if c.badge {
         let ix = w.ix_init_token_badge(cfg, &key);
         if !w.exec(&ix).ok() {
